@@ -25,6 +25,7 @@ import (
 	"sort"
 	"strings"
 	"sync"
+	"sync/atomic"
 	"testing"
 	"time"
 
@@ -107,6 +108,8 @@ type c18Env struct {
 	uses   int
 	// the step table is only built when verbose is set (replays, and the re-run of a failing behaviour)
 	verbose bool
+	// the concurrent driver leaves bolt's fdatasync on (slower commits: wider overlap windows)
+	keepSync bool
 }
 
 func (e *c18Env) open() error {
@@ -116,7 +119,7 @@ func (e *c18Env) open() error {
 	}
 	// every Update still writes its pages to the file before it returns; only the fdatasync is skipped
 	// (the file lives on a tmpfs, and the property is about Close/reopen, not about power loss)
-	m.db.NoSync = true
+	m.db.NoSync = !e.keepSync
 	e.mgr = m
 	e.router = APIRouterOf(m)
 	return nil
@@ -853,4 +856,450 @@ func c18ReplayFile(t *testing.T, path string, res *kit.Result, tmp string) {
 		fmt.Println(l)
 	}
 	fmt.Printf("REPLAY-RESULT key=%q what=%q\n", key, what)
+}
+
+// ------------------------------------------------------------------------------------------- B2
+// Overlapping admin requests: 2-4 goroutines fire requests at the real APIRouter (usage uploads at the
+// manager) on 1-2 UIDs at the same moment; call/return events are recorded under one lock (global order);
+// after each episode the whole store is read back. TLC validates the recording against
+// spec/UserDBTrace.tla (every episode must be explained by SOME order of its operations that respects
+// real time). Second formulation here: brute force over the permutations of each episode's concurrent
+// operations on a small reference map; its verdicts are handed to c18.py for cross-checking, TLC decides.
+
+type c18Op struct {
+	Op string    `json:"op"`
+	Pu string    `json:"pu"`
+	W  []c18Cell `json:"w,omitempty"`
+	Up int64     `json:"up,omitempty"`
+	Dn int64     `json:"dn,omitempty"`
+}
+
+type c18Episode struct {
+	Setup []c18Op `json:"setup"`
+	Conc  []c18Op `json:"conc"`
+}
+
+// what one operation / read returned
+type c18Seen struct {
+	Code  int                  `json:"code"`
+	Rec   []c18Cell            `json:"rec"`   // GET: six cells, or empty when 404
+	Users map[string][]c18Cell `json:"users"` // LIST
+	Panic string               `json:"panic,omitempty"`
+}
+
+func c18NoCells() []c18Cell { return []c18Cell{{}, {}, {}, {}, {}, {}} }
+
+func c18One(field int, v int64) []c18Cell {
+	w := c18NoCells()
+	w[field] = c18Cell{v}
+	return w
+}
+
+func c18All(v int64) []c18Cell {
+	w := c18NoCells()
+	for i := range w {
+		w[i] = c18Cell{v}
+	}
+	return w
+}
+
+// c18Abstract is the inverse of c18Concrete; values that are not on the model's number line become 555555.
+func c18Abstract(v int64, field int) int64 {
+	max, min := int64(math.MaxInt64), int64(math.MinInt64)
+	if field == 0 {
+		max, min = math.MaxInt32, math.MinInt32
+	}
+	switch {
+	case v >= -c18MaxV/2 && v <= c18MaxV/2:
+		return v
+	case v > 0 && max-v < c18MaxV/2:
+		return c18MaxV - (max - v)
+	case v < 0 && v-min < c18MaxV/2:
+		return c18MinV + (v - min)
+	}
+	return 555555
+}
+
+func c18CellsOf(r c18Rec) []c18Cell {
+	if r == nil {
+		return []c18Cell{}
+	}
+	out := make([]c18Cell, 6)
+	for i, p := range r {
+		if p == nil {
+			out[i] = c18Cell{}
+		} else {
+			out[i] = c18Cell{c18Abstract(*p, i)}
+		}
+	}
+	return out
+}
+
+type c18Recorder struct {
+	mu  sync.Mutex
+	tw  *kit.TraceWriter
+	seq int64
+}
+
+func (r *c18Recorder) emit(ev map[string]any) int64 {
+	r.mu.Lock()
+	defer r.mu.Unlock()
+	r.seq++
+	r.tw.Emit(ev)
+	return r.seq
+}
+
+// exec performs one operation against the real code and records call and return.
+func (e *c18Env) exec(rec *c18Recorder, t int, op c18Op) (seen c18Seen, callSeq, retSeq int64) {
+	w := op.W
+	if w == nil {
+		w = c18NoCells()
+	}
+	bu := ""
+	if op.Op == "post" {
+		bu = op.Pu
+	}
+	callSeq = rec.emit(map[string]any{"ev": "call", "t": t, "op": op.Op, "pu": op.Pu, "bu": bu, "w": w, "up": op.Up, "dn": op.Dn})
+	seen = c18Seen{Rec: []c18Cell{}, Users: map[string][]c18Cell{"u1": {}, "u2": {}}}
+	switch op.Op {
+	case "post":
+		seen.Code, _, seen.Panic = e.do("POST", c18Path(e.conc.uid(op.Pu)), c18Body(e.conc.uid(op.Pu), w, t, nil))
+	case "delete":
+		seen.Code, _, seen.Panic = e.do("DELETE", c18Path(e.conc.uid(op.Pu)), "\x00nobody")
+	case "upload":
+		up := StatusUpdate{UID: e.conc.uid(op.Pu), Active: true, NumSession: 1, Timestamp: 1,
+			UpUsage: c18Concrete(op.Up, 1), DownUsage: c18Concrete(op.Dn, 1)}
+		seen.Panic = c18Safe(func() { _, _ = e.mgr.UploadStatus([]StatusUpdate{up}) })
+	case "get":
+		var resp []byte
+		seen.Code, resp, seen.Panic = e.do("GET", c18Path(e.conc.uid(op.Pu)), "\x00nobody")
+		if seen.Code == http.StatusOK {
+			var ui UserInfo
+			if err := json.Unmarshal(resp, &ui); err != nil || !bytes.Equal(ui.UID, e.conc.uid(op.Pu)) {
+				seen.Panic = fmt.Sprintf("GET answered 200 with %q", resp)
+			} else {
+				seen.Rec = c18CellsOf(c18FromInfo(&ui))
+			}
+		} else if seen.Code != http.StatusNotFound && seen.Panic == "" {
+			seen.Panic = fmt.Sprintf("GET answered %d %q", seen.Code, resp)
+		}
+	case "list":
+		var resp []byte
+		seen.Code, resp, seen.Panic = e.do("GET", "/admin/users", "\x00nobody")
+		var infos []UserInfo
+		if seen.Panic == "" {
+			if err := json.Unmarshal(resp, &infos); err != nil || seen.Code != http.StatusOK {
+				seen.Panic = fmt.Sprintf("LIST answered %d %q", seen.Code, resp)
+			}
+		}
+		for i := range infos {
+			switch {
+			case bytes.Equal(infos[i].UID, e.conc.uid("u1")) && len(seen.Users["u1"]) == 0:
+				seen.Users["u1"] = c18CellsOf(c18FromInfo(&infos[i]))
+			case bytes.Equal(infos[i].UID, e.conc.uid("u2")) && len(seen.Users["u2"]) == 0:
+				seen.Users["u2"] = c18CellsOf(c18FromInfo(&infos[i]))
+			default:
+				seen.Panic = fmt.Sprintf("LIST shows an unexpected or repeated user %x", infos[i].UID)
+			}
+		}
+	default:
+		panic("unknown op " + op.Op)
+	}
+	retSeq = rec.emit(map[string]any{"ev": "ret", "t": t, "code": seen.Code, "rec": seen.Rec, "users": seen.Users})
+	return
+}
+
+// reference store of the second formulation: uid -> nil | six values (absent == 0)
+type c18Ref map[string]*[6]int64
+
+func (r c18Ref) clone() c18Ref {
+	out := c18Ref{}
+	for k, v := range r {
+		if v != nil {
+			c := *v
+			out[k] = &c
+		}
+	}
+	return out
+}
+
+func (r c18Ref) apply(op c18Op) {
+	switch op.Op {
+	case "post":
+		if r[op.Pu] == nil {
+			r[op.Pu] = &[6]int64{}
+		}
+		for i, c := range op.W {
+			if len(c) == 1 {
+				r[op.Pu][i] = c[0]
+			}
+		}
+	case "delete":
+		delete(r, op.Pu)
+	case "upload":
+		if r[op.Pu] != nil {
+			r[op.Pu][3] -= op.Up
+			r[op.Pu][4] -= op.Dn
+		}
+	}
+}
+
+func (r c18Ref) matches(u string, cells []c18Cell) bool {
+	if r[u] == nil {
+		return len(cells) == 0
+	}
+	if len(cells) != 6 {
+		return false
+	}
+	for i, c := range cells {
+		v := int64(0)
+		if len(c) == 1 {
+			v = c[0]
+		}
+		if v != r[u][i] {
+			return false
+		}
+	}
+	return true
+}
+
+func (r c18Ref) agrees(op c18Op, seen c18Seen) bool {
+	switch op.Op {
+	case "get":
+		return r.matches(op.Pu, seen.Rec)
+	case "list":
+		return r.matches("u1", seen.Users["u1"]) && r.matches("u2", seen.Users["u2"])
+	}
+	return true
+}
+
+// c18Explainable: is there an order of the concurrent operations (any order: weaker than what TLC demands,
+// which also respects real time) under which every read, concurrent or in the read-back, saw the store?
+func c18Explainable(ep *c18Episode, concSeen []c18Seen, back []c18Op, backSeen []c18Seen) bool {
+	base := c18Ref{}
+	for _, op := range ep.Setup {
+		base.apply(op)
+	}
+	n := len(ep.Conc)
+	perm := make([]int, n)
+	used := make([]bool, n)
+	var try func(k int, st c18Ref) bool
+	try = func(k int, st c18Ref) bool {
+		if k == n {
+			for i, op := range back {
+				if !st.agrees(op, backSeen[i]) {
+					return false
+				}
+			}
+			return true
+		}
+		for i := 0; i < n; i++ {
+			if used[i] || !st.agrees(ep.Conc[i], concSeen[i]) {
+				continue
+			}
+			used[i], perm[k] = true, i
+			next := st.clone()
+			next.apply(ep.Conc[i])
+			if try(k+1, next) {
+				return true
+			}
+			used[i] = false
+		}
+		return false
+	}
+	return try(0, base)
+}
+
+func c18EpisodeKey(ep *c18Episode) string {
+	var names []string
+	for _, op := range ep.Conc {
+		names = append(names, op.Op)
+	}
+	sort.Strings(names)
+	return "not-linearizable:" + strings.Join(names, "+")
+}
+
+// c18MakeEpisode draws one episode. The first three shapes are the classic lost-update / resurrection /
+// undone-deduction races, the rest is random over the whole operation set.
+func c18MakeEpisode(rng *kit.Rng, n int) c18Episode {
+	v := func(i int) int64 { return int64(10 + 10*(n%7) + i) } // values that identify episode and thread
+	full := c18Op{Op: "post", Pu: "u1", W: c18All(5)}
+	switch n % 6 {
+	case 0:
+		f := rng.Intn(6)
+		g := (f + 1 + rng.Intn(5)) % 6
+		return c18Episode{Setup: []c18Op{full}, Conc: []c18Op{{Op: "post", Pu: "u1", W: c18One(f, v(1))}, {Op: "post", Pu: "u1", W: c18One(g, v(2))}}}
+	case 1:
+		return c18Episode{Setup: []c18Op{full}, Conc: []c18Op{{Op: "delete", Pu: "u1"}, {Op: "post", Pu: "u1", W: c18One(rng.Intn(6), v(2))}}}
+	case 2:
+		f := []int{0, 1, 2, 5}[rng.Intn(4)]
+		return c18Episode{Setup: []c18Op{{Op: "post", Pu: "u1", W: c18All(100)}}, Conc: []c18Op{{Op: "upload", Pu: "u1", Up: 1 + int64(rng.Intn(3)), Dn: 4 + int64(rng.Intn(3))}, {Op: "post", Pu: "u1", W: c18One(f, v(2))}}}
+	}
+	ep := c18Episode{}
+	switch rng.Intn(4) {
+	case 0: // empty database
+	case 1:
+		ep.Setup = []c18Op{{Op: "post", Pu: "u1", W: c18One(rng.Intn(6), 3)}} // a partial record
+	case 2:
+		ep.Setup = []c18Op{full}
+	case 3:
+		ep.Setup = []c18Op{full, {Op: "post", Pu: "u2", W: c18All(c18MaxV)}}
+	}
+	k := 2 + rng.Intn(3)
+	for i := 1; i <= k; i++ {
+		u := "u1"
+		if rng.Intn(5) == 0 {
+			u = "u2"
+		}
+		var op c18Op
+		switch rng.Intn(9) {
+		case 0, 1, 2:
+			op = c18Op{Op: "post", Pu: u, W: c18One(rng.Intn(6), v(i))}
+		case 3:
+			w := c18All(v(i))
+			w[rng.Intn(6)] = c18Cell{}
+			op = c18Op{Op: "post", Pu: u, W: w}
+		case 4:
+			op = c18Op{Op: "post", Pu: u, W: c18NoCells()}
+		case 5:
+			op = c18Op{Op: "delete", Pu: u}
+		case 6:
+			op = c18Op{Op: "upload", Pu: u, Up: int64(rng.Intn(4)), Dn: int64(1 + rng.Intn(4))}
+		case 7:
+			op = c18Op{Op: "get", Pu: u}
+		case 8:
+			op = c18Op{Op: "list"}
+		}
+		ep.Conc = append(ep.Conc, op)
+	}
+	return ep
+}
+
+// c18RunEpisode executes one episode; returns what the concurrent operations and the read-back saw, and
+// whether at least two operations really overlapped.
+func (e *c18Env) runEpisode(rec *c18Recorder, ep *c18Episode) (concSeen []c18Seen, back []c18Op, backSeen []c18Seen, overlapped bool, pan string) {
+	rec.emit(map[string]any{"ev": "Reset"})
+	for _, op := range ep.Setup {
+		if s, _, _ := e.exec(rec, 0, op); s.Panic != "" {
+			return nil, nil, nil, false, "set-up " + op.Op + ": " + s.Panic
+		}
+	}
+	n := len(ep.Conc)
+	concSeen = make([]c18Seen, n)
+	calls, rets := make([]int64, n), make([]int64, n)
+	var ready atomic.Int32
+	var wg sync.WaitGroup
+	for i := range ep.Conc {
+		wg.Add(1)
+		go func(i int) {
+			defer wg.Done()
+			ready.Add(1)
+			for int(ready.Load()) < n { // spin: all goroutines leave the barrier within nanoseconds of each other
+				runtime.Gosched()
+			}
+			concSeen[i], calls[i], rets[i] = e.exec(rec, i+1, ep.Conc[i])
+		}(i)
+	}
+	wg.Wait()
+	for i := 0; i < n; i++ {
+		if concSeen[i].Panic != "" {
+			pan = ep.Conc[i].Op + ": " + concSeen[i].Panic
+		}
+		for j := 0; j < n; j++ {
+			if i != j && calls[i] < rets[j] && calls[j] < rets[i] {
+				overlapped = true
+			}
+		}
+	}
+	back = []c18Op{{Op: "get", Pu: "u1"}, {Op: "get", Pu: "u2"}, {Op: "list"}}
+	for _, op := range back {
+		s, _, _ := e.exec(rec, 0, op)
+		if s.Panic != "" {
+			pan = "read-back " + op.Op + ": " + s.Panic
+		}
+		backSeen = append(backSeen, s)
+	}
+	return
+}
+
+func TestVerifC18Linear(t *testing.T) {
+	c18Silence()
+	res := kit.NewResult()
+	defer func() { res.Save(true) }()
+	tmp := t.TempDir()
+	rng := kit.NewRng(kit.Seed()*7919 + 18)
+	rec := &c18Recorder{tw: kit.NewTraceWriter("c18_trace.ndjson")}
+	defer rec.tw.Close()
+	index := kit.NewTraceWriter("c18_episodes.ndjson")
+	defer index.Close()
+	episodes := kit.EnvInt("VERIF_C18_EPISODES", 600)
+	var replay *c18Episode
+	if rp := kit.Env("VERIF_REPLAY", ""); rp != "" {
+		var rf struct {
+			Replay struct {
+				Episode c18Episode `json:"episode"`
+			} `json:"replay"`
+		}
+		raw, err := os.ReadFile(rp)
+		if err != nil {
+			t.Fatal(err)
+		}
+		if err := json.Unmarshal(raw, &rf); err != nil {
+			t.Fatal(err)
+		}
+		replay = &rf.Replay.Episode
+		episodes = 300
+	}
+	dir, err := os.MkdirTemp(tmp, "c18lin")
+	if err != nil {
+		t.Fatal(err)
+	}
+	env := &c18Env{dir: dir, status: map[string]int{}, keepSync: true}
+	if err := env.open(); err != nil {
+		t.Fatal(err)
+	}
+	defer env.destroy()
+	flagged, overlaps := 0, 0
+	for n := 0; n < episodes; n++ {
+		ep := c18MakeEpisode(rng, n)
+		if replay != nil {
+			ep = *replay
+		}
+		env.conc = c18Conc{Swap: (n+int(kit.Seed()))%2 == 1}
+		env.uses = 1
+		if !env.recycle() { // empties the store (bucket deletion behind the manager's back)
+			t.Fatal("cannot empty the database")
+		}
+		first := rec.seq + 1
+		concSeen, back, backSeen, overlapped, pan := env.runEpisode(rec, &ep)
+		if overlapped {
+			overlaps++
+		}
+		key := c18EpisodeKey(&ep)
+		sig, _ := json.Marshal(ep)
+		res.Count(string(sig), len(ep.Conc) >= 2)
+		if pan != "" {
+			res.Violate("panic:concurrent", pan, map[string]any{"episode": ep})
+			break
+		}
+		ok := c18Explainable(&ep, concSeen, back, backSeen)
+		index.Emit(map[string]any{"n": n, "first": first, "last": rec.seq, "key": key, "episode": ep,
+			"conc_seen": concSeen, "back_seen": backSeen, "explainable": ok, "overlapped": overlapped})
+		if !ok {
+			flagged++
+			if replay != nil && flagged <= 3 {
+				fmt.Printf("attempt %d: no order of %s explains read-back %v\n", n, sig, backSeen)
+			}
+		}
+		if n%151 == 3 {
+			res.Sample(map[string]any{"episode": ep}, 3)
+		}
+	}
+	res.Stat("episodes", int64(episodes))
+	res.Stat("episodes_overlapped", int64(overlaps))
+	res.Stat("episodes_flagged_by_permutation_check", int64(flagged))
+	res.Stat("trace_events", rec.seq)
+	if replay != nil {
+		fmt.Printf("REPLAY-RESULT %d of %d attempts not explainable by any order\n", flagged, episodes)
+	}
 }
